@@ -133,11 +133,11 @@ def run(ctx):
     for defs, cfg in CORPUS:
         p = mk_prog(defs, cfg)
         for _ in sc.enumerate_schedules(lambda d: one_run(ctx, p, decisions=d, items=items, tag="corpus-exhaustive"),
-                                        ctx.n(40, 400)):
+                                        ctx.n(28, 400)):
             pass
         flush(ctx, items)
     # generated programs, sampled schedules
-    for i in range(ctx.n(60, 700)):
+    for i in range(ctx.n(40, 700)):
         wide = i % 3 == 2
         p = sc.gen_wide(rng) if wide else sc.gen_program(rng)
         for k in range(3 if wide else 2):
